@@ -721,3 +721,14 @@ func curatedLex() []*LexGrammar {
 	}
 	return gs
 }
+
+// kfLex: grammars that exhibit known findings; never part of the regular pools.
+func kfLex() []*LexGrammar {
+	gs := []*LexGrammar{
+		// F4a: a fresh instance of a regular definition is suppressed while another is in progress
+		lexDefs(regDef("_r", reAlt(reCat(reChar('a'), reChar('b')), reChar('a'))), tokDef("t", reCat(reRef("_r"), reStar(reRef("_r"))))),
+		// F4b: the end of a regular definition returns to every item waiting for it
+		lexDefs(regDef("_r", reCat(reChar('a'), reChar('a'))), tokDef("t", reAlt(reCat(reRef("_r"), reChar('x')), reCatN(reChar('a'), reRef("_r"), reChar('y'))))),
+	}
+	return gs
+}
